@@ -691,12 +691,12 @@ where
                 Mailbox::Bounded(n) => b.bounded(*n as usize),
             };
             match (strategy, owning) {
-                (Strategy::Default, false) => a(b.spawn()),
-                (Strategy::Default, true) => o(b.spawn_owning()),
-                (Strategy::Recreate, false) => a(b.recreate_from_default().spawn()),
-                (Strategy::Recreate, true) => o(b.recreate_from_default().spawn_owning()),
-                (Strategy::NonRestartable, false) => a(b.non_restartable().spawn()),
-                (Strategy::NonRestartable, true) => o(b.non_restartable().spawn_owning()),
+                (RStrat::Default, false) => a(b.spawn()),
+                (RStrat::Default, true) => o(b.spawn_owning()),
+                (RStrat::Recreate, false) => a(b.recreate_from_default().spawn()),
+                (RStrat::Recreate, true) => o(b.recreate_from_default().spawn_owning()),
+                (RStrat::NonRestartable, false) => a(b.non_restartable().spawn()),
+                (RStrat::NonRestartable, true) => o(b.non_restartable().spawn_owning()),
             }
         }
         SpawnSpec::Stream { builder, owning } => {
